@@ -160,6 +160,19 @@ Definition m_dict_update (d other : pyval) : res pyval :=
   | _ => if is_object d then Raise Unmodelled else Raise AttributeError
   end.
 
+(* ------------------------------------------------------------------ f-strings *)
+
+(* f"{v}": a str is itself; a class object is "<class 'module.Name'>" when the class statement shows that
+   nothing customises its text (the table is generated from the source); anything else is not predicted *)
+Definition m_format (reprs : list (pystr * pystr)) (v : pyval) : res pystr :=
+  match v with
+  | PStr s => Ok s
+  | POther _ n =>
+      if is_ref v then match alist_get reprs n with Some r => Ok r | None => Raise Unmodelled end
+      else Raise Unmodelled
+  | _ => Raise Unmodelled
+  end.
+
 (* ------------------------------------------------------------------ attributes named like builtin methods *)
 
 (* o.a where the builtin types define a method of that name (field.items): an attribute of an object of
